@@ -570,21 +570,43 @@ class Footprints:
     # explicit constraints are taken from the DSL-level set (independent of what later passes did with it)
     s.expl = sorted({(s.cid[wp(a)], s.cid[wp(b)]) for (a, b) in U_U if wp(a) in s.cid and wp(b) in s.cid and a is not b})
     s.edges = sorted({(s.cid[a], s.cid[b]) for (a, b) in top._dag.all_constraints if a in s.cid and b in s.cid})
+    # top-level signals of one net share ONE storage object after lock_in_simulation: classes of root ids
+    s.alias_rep = {}
+    try:
+      groups = {}
+      for q, rid in s.roots.items():
+        obj, i, is_list, _ = top._sim.signal_object_mapping[q]
+        v = obj[i] if is_list else getattr(obj, i)
+        groups.setdefault(id(v), []).append(rid)
+      for g_ in groups.values():
+        for r_ in g_: s.alias_rep[r_] = min(g_)
+    except Exception:
+      s.alias_rep = {}
 
   def fp_term(s, ivs):
     return coq_list([f'({r}%nat, {lo}, {hi})' for r, lo, hi in ivs])
 
-  def design_term(s, blocks=None, expl=None):
+  def design_term(s, blocks=None, expl=None, reads=None, writes=None):
     blocks = s.comb if blocks is None else blocks
     expl = s.expl if expl is None else expl
+    if reads is not None or writes is not None:
+      r_, w_ = (reads or s.reads), (writes or s.writes)
+      def fun2(tbl):
+        arms = ' '.join(f'| {i}%nat => {s.fp_term(tbl[b])}' for i, b in enumerate(blocks))
+        return f'(fun i => match i with {arms} | _ => [] end)'
+      ex = coq_list([f'({a}%nat, {b}%nat)' for a, b in expl])
+      return f'(mkDesign {len(blocks)}%nat {fun2(r_)} {fun2(w_)} {ex})'
     def fun(tbl):
       arms = ' '.join(f'| {i}%nat => {s.fp_term(tbl[b])}' for i, b in enumerate(blocks))
       return f'(fun i => match i with {arms} | _ => [] end)'
     ex = coq_list([f'({a}%nat, {b}%nat)' for a, b in expl])
     return f'(mkDesign {len(blocks)}%nat {fun(s.reads)} {fun(s.writes)} {ex})'
 
-def dag_case(fp, expl=None):
-  """Coq term (design, G, paths) for Sched.DagAccept.dag_ok: G = pymtl3's constraint edges between the comb blocks,
+def dag_case(fp, expl=None, alias=False):
+  """alias=True: the same with signals that share storage merged into one (a block writing `a` also changes every whole
+  signal `b` netted to it, so readers of `b` must come after it - through the net block or directly); the whole-signal
+  sinks a net block does not physically write are taken out of its write set.
+  Coq term (design, G, paths) for Sched.DagAccept.dag_ok: G = pymtl3's constraint edges between the comb blocks,
   paths = for every pair the footprints require (same rule as Accept.Eb, recomputed here only to know which paths to
   look for - Coq decides what is required) one path of G found by BFS. A pair without a path gets none, so the
   acceptor rejects the graph."""
@@ -592,12 +614,24 @@ def dag_case(fp, expl=None):
   n = len(fp.comb); X = set(expl)
   succ = {a: [] for a in range(n)}
   for (a, b) in fp.edges: succ[a].append(b)
+  reads, writes = fp.reads, fp.writes
+  if alias:
+    rep = lambda r: fp.alias_rep.get(r, r)
+    reads = {b: sorted({(rep(r), lo, hi) for (r, lo, hi) in fp.reads[b]}) for b in fp.comb}
+    writes = {}
+    for b in fp.comb:
+      w_ = {(rep(r), lo, hi) for (r, lo, hi) in fp.writes[b]}
+      if b in fp.top._dag.genblks:
+        srcs = {rep(r) for (r, lo, hi) in fp.reads[b]}
+        # sinks that alias the net's source are not written by the net block (shared storage)
+        w_ = {(r, lo, hi) for (r, lo, hi) in w_ if r not in srcs}
+      writes[b] = sorted(w_)
   paths = []; missing = []
   for a in range(n):
     need = []
     for b in range(n):
       if a == b: continue
-      ov = any(r1 == r2 and l1 < h2 and l2 < h1 for (r1, l1, h1) in fp.writes[fp.comb[a]] for (r2, l2, h2) in fp.reads[fp.comb[b]])
+      ov = any(r1 == r2 and l1 < h2 and l2 < h1 for (r1, l1, h1) in writes[fp.comb[a]] for (r2, l2, h2) in reads[fp.comb[b]])
       if (ov and (b, a) not in X) or (a, b) in X: need.append(b)
     if not need: continue
     prev = {a: None}; todo = [a]
@@ -613,7 +647,7 @@ def dag_case(fp, expl=None):
       else: missing.append((a, b))
   G = coq_list([f'({a}%nat, {b}%nat)' for a, b in fp.edges])
   P = coq_list([coq_list([f'{x}%nat' for x in pth]) for pth in paths])
-  return f'({fp.design_term(expl=expl)}, {G}, {P})', missing
+  return f'({fp.design_term(expl=expl, reads=reads if alias else None, writes=writes if alias else None)}, {G}, {P})', missing
 
 # ------------------------------------------------------------------ execution-order tracing
 class OrderTracer:
@@ -649,8 +683,14 @@ class OrderTracer:
           k_ = (frame.f_code, ('g', id(frame.f_globals.get('s'))))
           l_ = s.multi.get(k_)
           if l_:
-            t_ = s.turn.get(k_, 0); s.turn[k_] = t_ + 1
-            i = l_[t_ % len(l_)]
+            # functions that cannot be told apart are EMPTY (their code, constants and globals are equal and they take no
+            # arguments): running them is a no-op, so the execution equals one in which the whole group runs at the
+            # position of its first member; later calls of the group add nothing
+            if len(l_) == 1: i = l_[0]
+            elif not s.turn.get(k_):
+              s.turn[k_] = 1
+              s.order.extend(l_)
+            if i is None: return
       if i is not None: s.order.append(i)
   def run(s, fn):
     s.order = []; s.turn = {}
